@@ -184,3 +184,43 @@ def synthetic_code_batches(scratch, versions, n_per_version, rng_tag):
         for bi, chunk in enumerate(K.chunks(items, 60)):
             batches.append({"v": v, "items": chunk, "mode": "mkcode", "truth_cmd": "mkcode", "workdir": wd, "tag": "syn%d" % bi})
     return batches
+
+
+def synthetic_table_batches(scratch, versions, n_per_version, rng_tag):
+    """Workload L: line / location / exception tables installed in a code object by V itself (truth.py mkcode)."""
+    import binascii
+
+    from .gen import linetables as LT
+
+    def hx(b):
+        return binascii.hexlify(b).decode()
+
+    batches = []
+    for v in versions:
+        wd = scratch.sub("l%d%d" % v)
+        rng = K.rng_for(rng_tag, "L", v)
+        items = []
+        kind = "s" if v < (3, 0) else "B"
+        for i in range(n_per_version):
+            fl = rng.choice([1, 1, 7, 1000, 70000])
+            fields = {"co_firstlineno": ["i", str(fl)], "co_stacksize": ["i", "4"]}
+            if v >= (3, 11):
+                loc, units = LT.locations311(rng, fl)
+                fields["co_linetable"] = [kind, hx(loc)]
+                fields["co_exceptiontable"] = [kind, hx(LT.exctable(rng, units))]
+                fields["co_code"] = [kind, hx(bytes([9, 0] * units))]
+                tag = "synthetic-locations"
+            elif v >= (3, 10):
+                tab, n = LT.linetable310(rng, fl)
+                fields["co_linetable"] = [kind, hx(tab)]
+                fields["co_code"] = [kind, hx(bytes([9, 0] * (n // 2)))]
+                tag = "synthetic-linetable310"
+            else:
+                tab, n = LT.lnotab(rng, v, rng.choice([2, 10, 40, 300]), fl)
+                fields["co_lnotab"] = [kind, hx(tab)]
+                fields["co_code"] = [kind, hx(bytes([9, 0] * (n // 2)) if v >= (3, 6) else bytes([9] * n))]
+                tag = "synthetic-lnotab"
+            items.append({"pyc": os.path.join(wd, "tab%05d.pyc" % i), "tag": "%s/%s/%d" % (tag, K.vstr(v), i), "fields": fields})
+        for bi, chunk in enumerate(K.chunks(items, 80)):
+            batches.append({"v": v, "items": chunk, "mode": "mkcode", "truth_cmd": "mkcode", "workdir": wd, "tag": "tab%d" % bi})
+    return batches
